@@ -10,6 +10,9 @@ D1  no re-traversal of shared sub-DAGs.
         cells, every cell referencing the next one twice - 2^n paths, n cells) for n = 6, 10, 14, 18 and the number of
         interpreted calls of every traversal function is counted: it must grow at most linearly in n (exponential growth is
         the defect).
+D3  dictionary parsers.  A valid Hashmap of key length k has at most k levels; the descent is bounded only if every label obeys
+    n <= m (remaining key length).  The plain and augmented parsers are interpreted on a (d+2)-cell bag whose root label is longer than
+    the key and whose d fork cells each reference one child twice: more than 16(d+2)+64 calls of any parser function is the violation.
 D2  input-derived loop bounds.  The BoC and TL parsers are abstractly interpreted on adversarial inputs in which every
     count / length field in turn is set to its maximum while the input stays short; the interpreter counts loop iterations:
     more than 8 x len(input) + 64 iterations of any loop before the parser returns or raises is the violation.
@@ -332,6 +335,7 @@ def check(run):
     run.rule('D1a', 'every descent over `.refs` (recursive call or work-list push) in the BoC code is control-dependent on a first-visit membership test; printing exempt; construction-time hashing does not recurse', 1)
     run.rule('D1b', 'traversal calls for ordering / serialising / hashing / comparing the n-cell maximal-sharing chain grow at most linearly in n (n = 5, 9, 13; thorough 6..22)', 6)
     run.rule('D2', 'no loop of the BoC / TL parsers runs more than 8 x len(input) + 64 iterations when a count or length field is set to its maximum on a short input', 10)
+    run.rule('D3', 'dictionary parsers: with a label longer than the remaining key length (HmLabel constraint n <= m violated) the parse must stop - the number of parser calls on a d-level fork chain over one shared child stays linear in d', 6)
     run.rule('D2s', 'every loop whose bound is derived from the input bytes is known and covered by an adversarial scenario', 3)
     run.trust('CPython ast', 'checker interpreter (call and loop counters)', 'sa/bocspec.py encoder')
     # ---- D1a
@@ -546,6 +550,52 @@ def check(run):
     run.check(ok, 'D2', 'TlSchemas.deserialize[nested packed bytes]' if not ok else 'tl: nested bytes fields packing two objects each',
               f'inputs of {lens} bytes (nesting {list(depths)[:len(lens)]}): most-executed call/loop runs {counts} times' + (f'; {failure}' if failure else '') +
               ('' if ok else ' - the work grows with the number of nestings exponentially, not with the length'), wt)
+    # ---- D3 dictionary parsers: a label longer than the remaining key length must stop the descent
+    wd = prog.where(prog.func('deserialize_hml', module='boc.hashmap.parse'))
+
+    def dict_bomb(depth, labels_):
+        root_label, fork_label = labels_
+        leaf = SCell('00000010' + '0' * 256, exotic=True)        # a library cell: the parsers leave a non-ordinary cell alone
+        cur = leaf
+        for _ in range(depth):
+            cur = SCell(fork_label, [cur, cur])                   # an empty label (n = 0) of the same kind, then a fork whose two branches are one cell
+        return SCell(root_label, [cur, cur])
+    # (root label, label of the fork cells: n = 0 in a length field of whatever width the parser reads there)
+    labels = {'hml_short n=3 > m=2': ('0' + '1110' + '101', '00'), 'hml_long n=3 > m=2': ('10' + '11' + '101', '10' + '0' * 12),
+              'hml_same n=3 > m=2': ('11' + '1' + '11', '110' + '0' * 12)}
+    ddepths = (5, 9, 13) if run.tier != 'thorough' else (5, 9, 13, 17, 21)
+    for entry in ('parse_hashmap', 'parse_hashmap_aug'):
+        for lname, lab in labels.items():
+            counts, outcome = [], []
+            for d in ddepths:
+                it = CountingInterp(prog)
+                it.MAX_STEPS = 1_500_000
+                root = bocrun.build(it, dict_bomb(d, lab))
+                sl = cm.call_method(it, root, 'begin_parse')
+                it.calls.clear()
+                it.steps = 0
+                extra = [] if entry == 'parse_hashmap' else [Native(lambda it_, a, k, n: K(0), 'x'), Native(lambda it_, a, k, n: K(0), 'y')]
+                try:
+                    it.call(prog.func(entry, module='boc.hashmap.parse'), [sl, K(2)] + extra, {})
+                    outcome.append('returned')
+                except RaiseEx as e:
+                    outcome.append(f'raised {e.kind}')
+                except Fail as e:
+                    if 'step budget' in str(e) or 'depth' in str(e):
+                        outcome.append('interpretation budget exhausted')
+                        counts.append(max(it.calls.values() or [0]))
+                        break
+                    raise AnalysisError(f'dictionary scenario {entry} {lname} depth {d}: {e}')
+                counts.append(max(it.calls.values() or [0]))
+                run.evaluations += 1
+                if counts[-1] > 16 * (d + 2) + 64:
+                    break
+            ok = len(counts) == len(ddepths) and all(c <= 16 * (d + 2) + 64 for c, d in zip(counts, ddepths))
+            run.check(ok, 'D3', f'{entry}[label longer than the remaining key]' if not ok else f'dict: {entry}, {lname}',
+                      f'key length 2, root label {lname}, then a chain of d forks over one shared child (d+2 cells), d={list(ddepths)[:len(counts)]}: {outcome}, most-executed call/loop runs {counts} times' +
+                      ('' if ok else ' - the constraint n <= m of HmLabel is not enforced, the remaining key length goes negative and the descent no longer stops at the key length: work doubles per cell'), wd,
+                      witness=dict(entry=entry, label=list(lab), depths=list(ddepths)))
+
     # ---- D2s the data-bounded loops are known
     loops = data_bounded_loops(prog, ('boc.deserialize', 'tl.generator'))
     for f, n in loops:
